@@ -59,7 +59,11 @@ Definition af_lastwritetime (p : iplan) : option Z := ip_mtime p.
 (* _test_attribute(bit): attributes is None -> False ; attributes & bit == bit *)
 Definition test_attribute (p : iplan) (bit : Z) : bool :=
   match ip_attr p with None => false | Some v => Z.land v bit =? bit end.
-Definition af_is_directory (p : iplan) : bool := test_attribute p 16.      (* FILE_ATTRIBUTE_DIRECTORY *)
+(* is_directory: if self._get_property("emptystream"): return not self._get_property("emptyfile")
+                 return self._test_attribute(FILE_ATTRIBUTE_DIRECTORY)
+   (for an entry without data the format decides: empty file when its EmptyFile bit is set, else directory) *)
+Definition af_is_directory (p : iplan) : bool :=
+  if ip_emptystream p then negb (ip_emptyfile p) else test_attribute p 16.
 Definition af_archivable (p : iplan) : bool := test_attribute p 32.        (* FILE_ATTRIBUTE_ARCHIVE *)
 Definition af_readonly (p : iplan) : bool := test_attribute p 1.           (* FILE_ATTRIBUTE_READONLY *)
 Definition unix_extension (p : iplan) : option Z :=
@@ -468,14 +472,13 @@ Proof.
   - apply first_match_some in H as (_ & E2 & E3 & _). rewrite Z.sub_0_r in E2. auto.
 Qed.
 
-Definition slash_plan : iplan := mkIPlan (Some [100; 47] (* d/ *)) 2 (-1) 0 0 None None (Some 16) 0.
+Definition slash_plan : iplan := mkIPlan (Some [100; 47] (* d/ *)) 2 (-1) 0 0 None None (Some 16) 0 true false.
 
 (* ---------- the assignment keeps order, names, attributes ---------- *)
-Definition entry_kind (e : fileent) : Z :=
-  if attr_is_dir (e_attr e) then 2 else if e_emptystream e then 1 else 0.
+(* the plan carries the entry's "emptystream" key and EmptyFile bit; its kind is Assign.entry_kind of them *)
 Definition entry_plan_rel (e : fileent) (p : iplan) : Prop :=
   ip_name p = e_name e /\ ip_attr p = flat_opt (e_attr e) /\ ip_mtime p = flat_opt (e_mtime e)
-  /\ ip_kind p = entry_kind e
+  /\ (ip_emptystream p = e_emptystream e /\ ip_kind p = entry_kind e (ip_emptyfile p))
   /\ (e_emptystream e = true -> ip_size p = 0 /\ ip_crc p = None /\ ip_folder p = -1).
 
 (* one step through the head `match` / `if` / `let` / bind of a hypothesis  ... = Ok _  (keeps the proof independent
@@ -486,11 +489,11 @@ Ltac step_ok H :=
   end.
 
 Lemma assign_loop_rel multi files :
-  forall fid nums sizes dd dg folder outs input fstats nf ps,
-  assign_loop multi files fid nums sizes dd dg folder outs input fstats nf = Ok ps ->
+  forall efl fid nums sizes dd dg folder outs input fstats nf ps,
+  assign_loop multi files efl fid nums sizes dd dg folder outs input fstats nf = Ok ps ->
   Forall2 entry_plan_rel files ps.
 Proof.
-  induction files as [|e r IH]; intros fid nums sizes dd dg folder outs input fstats nf ps H; cbn [assign_loop] in H.
+  induction files as [|e r IH]; intros efl fid nums sizes dd dg folder outs input fstats nf ps H; cbn [assign_loop] in H.
   - inversion H; constructor.
   - unfold bind in H. cbv zeta in H. repeat step_ok H.
     all: try match goal with E : (if ?c then _ else _) = Ok _ |- _ => destruct c end.
@@ -499,15 +502,11 @@ Proof.
          match goal with E : e_emptystream _ = _ |- _ => rewrite E end; repeat split; discriminate.
 Qed.
 
-Lemma enumerate_rel (files : list fileent) : forall i,
-  Forall2 entry_plan_rel files
-    (map (fun '(i, e) =>
-            mkIPlan (e_name e) (if attr_is_dir (e_attr e) then 2 else if e_emptystream e then 1 else 0)
-                    (-1) 0 0 None (flat_opt (e_mtime e)) (flat_opt (e_attr e)) i)
-         (enumerate_from i files)).
+Lemma enumerate_rel (files : list fileent) : forall efl i,
+  Forall2 entry_plan_rel files (nostream_plans files efl i).
 Proof.
-  induction files as [|e r IH]; intros i; simpl; constructor; [|apply IH].
-  unfold entry_plan_rel, entry_kind; simpl. repeat split.
+  induction files as [|e r IH]; intros efl i; cbn [nostream_plans]; constructor; [|apply IH].
+  unfold entry_plan_rel; simpl. repeat split.
 Qed.
 
 (* the members of an opened archive are its header entries, in stored order *)
@@ -562,18 +561,24 @@ Proof.
 Qed.
 
 Lemma is_directory_attr (e : fileent) (p : iplan) :
-  ip_attr p = flat_opt (e_attr e) -> af_is_directory p = attr_is_dir (e_attr e).
+  ip_attr p = flat_opt (e_attr e) -> test_attribute p 16 = attr_is_dir (e_attr e).
 Proof.
-  unfold af_is_directory, test_attribute, attr_is_dir. intros ->.
+  unfold test_attribute, attr_is_dir. intros ->.
   destruct (e_attr e) as [[v|]|]; simpl; try reflexivity.
   rewrite land_16. destruct (Z.testbit v 4); reflexivity.
 Qed.
 
 Lemma entry_rel_directory e p : entry_plan_rel e p -> (af_is_directory p = true <-> ip_kind p = 2).
 Proof.
-  intros (_ & Ha & _ & Hk & _). rewrite (is_directory_attr e p Ha), Hk. unfold entry_kind.
-  destruct (attr_is_dir (e_attr e)); [tauto|]. destruct (e_emptystream e); split; discriminate.
+  intros (_ & Ha & _ & (Hs & Hk) & _). unfold af_is_directory. rewrite (is_directory_attr e p Ha), Hs, Hk.
+  unfold entry_kind.
+  destruct (e_emptystream e); [destruct (ip_emptyfile p); simpl; split; (reflexivity || discriminate)|].
+  destruct (attr_is_dir (e_attr e)); split; (reflexivity || discriminate).
 Qed.
+(* the flag of an entry without data is the negation of its EmptyFile bit, whatever its attributes *)
+Lemma entry_rel_directory_emptystream e p : entry_plan_rel e p -> e_emptystream e = true ->
+  af_is_directory p = negb (ip_emptyfile p).
+Proof. intros (_ & _ & _ & (Hs & _) & _) He. unfold af_is_directory. rewrite Hs, He. reflexivity. Qed.
 
 (* listing flag = kind decision of Assign.v = what extraction does *)
 Lemma is_directory_iff_plans h ps p :
@@ -588,6 +593,20 @@ Proof.
   - unfold extract_action_path. destruct (af_is_directory p); [tauto|].
     destruct (af_is_socket p); [split; discriminate|]. destruct (af_is_symlink p || af_is_junction p); split; discriminate.
   - unfold extract_action_factory. now intros ->.
+Qed.
+
+(* the flag entry by entry: for an entry without data the negation of its EmptyFile bit (the format's rule; the
+   attribute word, defined or not, has no say), for an entry with data the directory bit of its attributes *)
+Lemma is_directory_per_entry h files ps i e p :
+  impl_plans h = Ok ps -> h_files h = Some files -> nth_error files i = Some e -> nth_error ps i = Some p ->
+  af_is_directory p = (if e_emptystream e then negb (ip_emptyfile p) else attr_is_dir (e_attr e))
+  /\ (e_emptystream e = true -> (af_is_directory p = false <-> ip_kind p = 1)).
+Proof.
+  intros H Hf He Hp. apply impl_plans_rel in H. rewrite Hf in H.
+  destruct (Forall2_nth_r _ _ _ _ _ H Hp) as (e' & He' & HR). rewrite He in He'. inversion He'; subst e'.
+  destruct HR as (_ & Ha & _ & (Hs & Hk) & _). unfold af_is_directory. rewrite (is_directory_attr e p Ha), Hs.
+  split; [reflexivity|]. intros Ee. rewrite Hk. unfold entry_kind. rewrite Ee.
+  destruct (ip_emptyfile p); simpl; split; (reflexivity || discriminate).
 Qed.
 
 Lemma list_row_directory dflt ps i p row :
